@@ -279,6 +279,28 @@ Proof. exact (fun c s st univ seen fired tr sc pcode pnc pcb =>
        (model_passes_C08_clause_6_lemma c s st univ seen fired tr sc pcode pnc pcb)). Qed.
 Print Assumptions model_passes_C08_clauses_2_6.
 
+(** clause 7, the two history-wide lists (PARTIAL: the third list of clause 7 — the callbacks of
+    the step are exactly the expected ones, [same_set (expected_cb p st o) (o_cb o)] — is not
+    covered).  Along the model's own trace the checker's accumulator [fired] is [cb_keys] of the
+    callback log so far (empty at the start, extended by [cb_keys (o_cb o)] at every step — the
+    log only grows); then no response callback logged by the step repeats a (context, batch)
+    already fired, and the current batch of every stored module-owned context, once closed, has
+    fired.  These are exactly the boolean entries the checker evaluates. *)
+Theorem model_passes_C08_clause_7_history :
+  forall c steps st h0 t0 l0 univ,
+    NoDup (create_txhs (steps ++ [st])) ->
+    let s := run c (init h0 t0 l0) steps in
+    let o := obs_step univ c s st in
+    let fired := cb_keys (cblog s) in
+    cblog (init h0 t0 l0) = []
+    /\ fired ++ cb_keys (o_cb o) = cb_keys (cblog (apply c s st))
+    /\ (forall k, In k (cb_keys (o_cb o)) -> negb (existsb (eqb k) fired) = true)
+    /\ (forall e, In e (o_ctxs o) ->
+          (negb (t_mod (snd e)) || t_brun (snd e) || (t_batch (snd e) <? 1)
+           || existsb (eqb (fst e, t_batch (snd e))) (fired ++ cb_keys (o_cb o))) = true).
+Proof. exact model_passes_C08_clause_7_history_lemma. Qed.
+Print Assumptions model_passes_C08_clause_7_history.
+
 (** ** non-vacuity: a history in which one request is answered and its sibling expires; a
     late answer to the expired one and a duplicate answer to the answered one are rejected;
     the one-shot context is removed; a repeated context (frequency 3, total 2) starts its
